@@ -38,8 +38,9 @@ TRUSTED = [
     "decided by ALV.C09.callStep from ALV.C09.WKind.caps, and that table is compared with callable() / isinstance(., Iterable) / "
     "isinstance(., Stream) of the real objects on every run (extra_checks window-kind-table-*); trusted: that _build_wobj builds "
     "an object that behaves as described (its __call__ returns the table row, its __iter__ the data)",
-    "window objects whose ITERATION gives things that are not numbers and that are not callable (a list of strings, a dict of "
-    "tuples) are modelled as the error window-items but never drawn (the precise exception depends on the first arithmetic)",
+    "window objects whose ITERATION gives things that are not numbers and that are not callable (a list / tuple / generator / deque of "
+    "parameter tuples) are drawn as wnd of overlap_add.list (ALV.C09.olaOpaque: TypeError at the first arithmetic on an item, none with "
+    "zero blocks and no normalisation); as wnd / ola_wnd of the stft wrapper they are modelled (window-items) but not drawn",
     "the Lean model / spec is a pure function of the request of one call: `ALV.Driver.C09.handle \"hist\"` answers every call "
     "of a history by `handleCall` on that call's own request, so 'the result depends only on the call's own argument values' "
     "holds for the model by construction (nothing to prove); that the REAL code has no state between calls and leaves its "
@@ -58,6 +59,9 @@ ASSUMPTIONS = [
     "size >= 1; the property quantifies over 1 <= hop <= size (hop > size and hop = 0 are modelled and tied, "
     "but the spec is silent there)",
     "normalisation is modelled over an ordered field (int / Fraction / float windows); complex windows are outside",
+    "window items that are not numbers: tied for hop < size or normalisation on or zero blocks; with hop = size, no normalisation and "
+    "at least one block no addition touches an item and int * tuple is a tuple, so the outcome depends on the Python TYPE of the samples "
+    "(ints: tuples come out, Fractions / floats: TypeError) -- outside the model, not drawn",
     "ceil(size / hop) is computed by the code in floating point; modelled as exact integer ceiling",
 ]
 
@@ -205,9 +209,14 @@ def _real_window(name, n):
     return [enc(x) for x in f(n)]
 
 
-def _mk_wobj(rng, wk, size, hop, num, wsize=None, ret_bad=None):
-    """a window object of kind `wk` for blocks of `size` items"""
+WK_OPAQUE = ["list", "tuple", "generator", "list_iterator", "deque", "user_iter_only"]
+
+
+def _mk_wobj(rng, wk, size, hop, num, wsize=None, ret_bad=None, opaque=False):
+    """a window object of kind `wk` for blocks of `size` items; `opaque`: its items are parameter tuples, not numbers"""
     wsize = size if wsize is None else wsize
+    if opaque and wk in WK_OPAQUE:
+        return {"kind": "obj", "wk": wk, "variant": "user", "ret": "list", "call": None, "iter": {"r": "opaque", "n": wsize}}
     d = wsize - size
     sizes = sorted({size, hop, max(size - 1, 1), size + 1} - {0})
     w = {"kind": "obj", "wk": wk, "variant": "user", "ret": "list", "call": None, "iter": None}
@@ -409,12 +418,12 @@ def _spell(v):
 
 
 def _mk_ola(rng, size, hop, m, normalize, wkind, num, size_given=True, hop_given=True, route="list",
-            wsize=None, blens=None, ret_bad=None):
+            wsize=None, blens=None, ret_bad=None, opaque=False):
     blens = blens if blens is not None else [size] * m
     blks = [[_rand_val(rng, num) for _ in range(n)] for n in blens]
     wsize = size if wsize is None else wsize
     if wkind.startswith("obj:"):
-        wnd = _mk_wobj(rng, wkind[4:], size, hop, num, wsize=wsize, ret_bad=ret_bad)
+        wnd = _mk_wobj(rng, wkind[4:], size, hop, num, wsize=wsize, ret_bad=ret_bad, opaque=opaque)
     elif wkind == "none":
         wnd = None
     elif wkind in ("callable", "callable_gen"):
@@ -538,6 +547,22 @@ def generate(rng, tier, scale=1):
             cases.append(_mk_ola(rng, size, hop, m, rng.random() < 0.5, "obj:" + wk, num, size_given=size_given,
                                  hop_given=(hop != size) or rng.random() < 0.5, route=rng.choice(ROUTES + ["gens"]),
                                  wsize=wsize, ret_bad=ret_bad))
+    # --- window items that are not numbers (tuples of parameters): nothing fails before the first arithmetic ----
+    for i in range((90 if quick else 1500) * scale):
+        size = rng.randint(1, 6)
+        hop = rng.choice([size, max(1, size // 2), rng.randint(1, size)])
+        m = rng.choice([0, 0, 1, 2, 3])
+        wsize = size if rng.random() < 0.8 else rng.choice([0, max(1, size - 1), size + 1])
+        if i % 2 and m >= 1 and hop == size:
+            # hop = size without normalisation: no addition ever touches an item and int * tuple is a tuple, so whether
+            # anything is raised depends on the TYPE of the samples -- outside the model (ASSUMPTIONS)
+            if size >= 2:
+                hop = rng.randint(1, size - 1)
+            else:
+                m = 0
+        cases.append(_mk_ola(rng, size, hop, m, i % 2 == 0, "obj:" + rng.choice(WK_OPAQUE), rng.choice(["int", "frac", "float"]),
+                             size_given=rng.random() < 0.6 or m == 0, hop_given=(hop != size) or rng.random() < 0.5,
+                             route=rng.choice(ROUTES), wsize=wsize, opaque=True))
     # --- the other strategies: `overlap_add(…)` is `overlap_add.numpy(…)` (numpy first, absent here) ----
     for _ in range((12 if quick else 60) * scale):
         size = rng.randint(1, 5)
@@ -593,6 +618,39 @@ def generate(rng, tier, scale=1):
     for i in range(nst):
         kind = ("plain", "plain", "identity", "identity", "bad", "ola_none", "plain_np")[i % 7]
         cases.append(_mk_stft(rng, kind))
+    # --- the length clause at m = 0 and m = 1: every window kind x normalise x (size, hop) --------------
+    if scale == 1:
+        S0 = 4 if quick else 7
+        i = 0
+        for size in range(1, S0 + 1):
+            for hop in range(1, size + 1):
+                for m in (0, 1):
+                    for wkind in WKINDS + ["obj:" + wk for wk in WK_ALL]:
+                        for normalize in ((False, True) if not wkind.startswith("obj:") else (bool((i + m) % 2),)):
+                            i += 1
+                            c = _mk_ola(rng, size, hop, m, normalize, wkind, ("int", "frac", "float")[i % 3],
+                                        size_given=(m == 0) or i % 3 != 0, hop_given=(hop != size) or i % 2 == 0,
+                                        route=ROUTES[i % len(ROUTES)])
+                            c["grid"] = "m01"
+                            cases.append(c)
+    # --- the wrapper on signals too short to form a block (at most size - hop samples, the empty one included)
+    for i in range((150 if quick else 2500) * scale):
+        c = _mk_stft(rng, ("identity", "plain", "plain", "ola_none")[i % 4])
+        merged = {}
+        for d in c["chain"] + [c["call"]]:
+            for k, v in d:
+                merged[k] = v
+        sz, hp = merged.get("size"), merged.get("hop")
+        if isinstance(sz, int):
+            hp = hp if isinstance(hp, int) else sz
+            n = rng.randint(0, max(0, sz - hp)) if i % 5 else max(0, sz - hp) + 1      # 1 in 5: just one block
+            c["sig"] = [_rand_val(rng, c["num"]) for _ in range(n)]
+            c["kind"] = "short"
+            c["regime"] = _regime_stft(c)
+        cases.append(c)
+    # --- histories of the partial / decorator forms (a partial is an immutable options record) -------
+    for _ in range((350 if quick else 7000) * scale):
+        cases.append(_mk_phist(rng, quick))
     # --- histories: calls sharing argument objects (no argument is modified, no state between calls) ----
     cases.extend(_gen_hist(rng, tier, scale))
     return cases
@@ -833,6 +891,9 @@ def _err_obs(e):
         tag = "zero-division"
     elif "max()" in msg:
         tag = "max-empty"
+    elif kind == "TypeError" and ("bad operand type for abs()" in msg or "unsupported operand type(s) for +" in msg
+                                  or "can't multiply sequence by non-int" in msg):
+        tag = "window-items"           # the first arithmetic on a window item that is not a number
     elif "generator raised StopIteration" in msg:
         tag = "generator-raised-StopIteration"
     elif "numpy" in msg and isinstance(e, ImportError):
@@ -1055,13 +1116,20 @@ def _run_ola(blks, kw, args=(), strategy="list"):
             out.append(x)
     except Exception as e:
         err = _err_obs(e)
-    return {"out": [enc(x) for x in out], "err": err,
-            "floats": sum(1 for x in out if isinstance(x, float))}
+    try:
+        eo = [enc(x) for x in out]
+    except Exception:        # samples that are not numbers (a window of tuples that went through): reported, never a crash
+        if err is None:
+            err = {"kind": "none", "tag": "output-items-are-not-numbers:" + repr(out[:3])[:60]}
+        eo = []
+    return {"out": eo, "err": err, "floats": sum(1 for x in out if isinstance(x, float))}
 
 
 def impl(c):
     if c["entry"] == "hist":
         return _impl_hist(c)
+    if c["entry"] == "phist":
+        return _impl_phist(c)
     _zygote_start()            # fork the pristine process before this process runs its first case
     _ISO["dirty"] = True
     from audiolazy import overlap_add
@@ -1125,8 +1193,11 @@ def impl(c):
 def request(c):
     if c["entry"] == "hist":
         return {"entry": "hist", "calls": [request(sub) for sub in _subcases(c)]}
+    if c["entry"] == "phist":
+        return {"entry": "phist", "events": c["events"],
+                "objs": dict((t, dict((k, v) for k, v in o.items() if k != "wkind")) for t, o in c["objs"].items())}
     r = dict(c)
-    for k in ("wkind", "num", "route", "regime", "kind", "normalize_given", "norm_spell", "argstyle"):
+    for k in ("wkind", "num", "route", "regime", "kind", "normalize_given", "norm_spell", "argstyle", "grid"):
         r.pop(k, None)
     if c["entry"] == "stft":
         r.pop("style", None)
@@ -1235,6 +1306,8 @@ def compare(c, io, drv):
     _LAST[id(c)] = drv
     if c["entry"] == "hist":
         return _compare_hist(c, io, drv)
+    if c["entry"] == "phist":
+        return _compare_phist(c, io, drv)
     return _compare_one(c, io, drv)
 
 
@@ -1274,6 +1347,9 @@ def _compare_one(c, io, drv):
 
 
 def nontrivial(c, io):
+    if c["entry"] == "phist":
+        good = [o for o in io.get("runs", []) if o.get("err") is None and o.get("trace")]
+        return bool(good) and max(_ph_uses(c) or [0]) >= 2
     if c["entry"] == "hist":
         good = [o for o in io.get("calls", []) if o.get("err") is None and (o.get("out") or o.get("blocks"))]
         shared = any(len(u) >= 2 and c["objs"][t]["type"] not in ("fn", "ola") for t, u in _tag_uses(c).items())
@@ -1312,6 +1388,8 @@ def tally(eng, c, io):
     drv = _LAST.pop(id(c), None) or {}
     if c["entry"] == "hist":
         return _tally_hist(eng, c, io)
+    if c["entry"] == "phist":
+        return _tally_phist(eng, c, io)
     if c["entry"] == "stft":
         sp = drv.get("spec") or {}
         eng.count("stft_spec_identity_reconstruction", "checked on %s samples" % ("0" if not sp.get("covered") else "1+")
@@ -1344,6 +1422,10 @@ def tally(eng, c, io):
         if w.get("call"):
             rs = sorted({r["r"] for _, r in w["call"]["table"]})
             eng.count("window_object_call_returns", "+".join(rs) + " as " + w.get("ret", "list"))
+        if (w.get("iter") or {}).get("r") == "opaque" and not w.get("call"):
+            eng.count("window_items_not_numbers", "%s blocks, normalize=%s, %s -> %s" % (
+                "0" if m == 0 else "1+", c["normalize"], "n=size" if w["iter"]["n"] == size else "n!=size",
+                (io.get("err") or {}).get("tag", "no error")))
         if w.get("iter") and w.get("call"):
             eng.count("window_object_callable_and_iterable", "%s: iteration gives %s" % (w["wk"], w["iter"]["r"]))
     eng.count("ola_call_shape", c.get("argstyle", "kw"))
@@ -1403,6 +1485,10 @@ def shrink(c):
             if k not in seen and d["calls"]:
                 seen.add(k)
                 yield d
+        return
+    if c["entry"] == "phist":
+        for d in _shrink_phist(c):
+            yield d
         return
     if c["entry"] == "stft":
         for d in _shrink_stft(c):
@@ -1543,6 +1629,8 @@ def neighbours(c):
 def classify(c, io, drv):
     if c["entry"] == "hist":
         return _classify_hist(c, io, drv)
+    if c["entry"] == "phist":
+        return _classify_phist(c, io, drv)
     if isinstance(io.get("err"), str):
         return "impl-observation-failed:" + io["err"]
     if c["entry"] == "ola":
@@ -2461,3 +2549,362 @@ def _shrink_hist(c):
                     yield with_call(i, dict(k, sig=sig[1:]))
                 if any(x not in (0, 1) for x in sig):
                     yield with_call(i, dict(k, sig=[1] * len(sig)))
+
+
+# ==============================================================================================
+# histories of the stft partial / decorator forms (lean/ALV/Model/C09Hist.lean)
+# ==============================================================================================
+# {"entry": "phist", "num": …, "objs": {tag: object as in the stft cases},
+#  "events": [{"op": "new", "kw": [[k, v], …]}                      p_i = stft(**kw)
+#             {"op": "derive", "parent": i, "kw": …}                p_i = p_parent(**kw)
+#             {"op": "build", "parent": i, "kw": …, "func": tag, "deco": bool}   proc_j = p_parent(func, **kw)  /  @p_parent
+#             {"op": "direct", "kw": …, "func": tag}                proc_j = stft(func, **kw)
+#             {"op": "run", "proc": j, "sig": […], "call": [[k, v], …]}           proc_j(sig, **call)
+# Partials and processors are named by creation order.  The driver replays the events on the model's store
+# (`runOps`) and answers every run from the record the store holds for that processor ("model") and from the merge
+# of the keyword dicts on the processor's OWN path (`runChains` + `stftDefaults`, "spec").
+
+
+def _ph_paths(c, upto=None):
+    """own keyword path of every partial / processor (the harness' own replay, used for labels and regimes)"""
+    parts, procs, funcs = [], [], []
+    for ev in c["events"][:upto]:
+        op = ev["op"]
+        if op == "new":
+            parts.append([ev["kw"]])
+        elif op == "derive":
+            parts.append(parts[ev["parent"]] + [ev["kw"]])
+        elif op == "build":
+            procs.append(parts[ev["parent"]] + [ev["kw"]])
+            funcs.append(ev["func"])
+        elif op == "direct":
+            procs.append([ev["kw"]])
+            funcs.append(ev["func"])
+    return parts, procs, funcs
+
+
+def _ph_uses(c):
+    """how often every partial is used as a parent"""
+    n = {}
+    for ev in c["events"]:
+        if ev["op"] in ("derive", "build"):
+            n[ev["parent"]] = n.get(ev["parent"], 0) + 1
+    return list(n.values())
+
+
+def _ph_subcases(c):
+    """every run as the stand-alone stft case of ITS OWN options"""
+    _, procs, funcs = _ph_paths(c)
+    subs = []
+    for ev in c["events"]:
+        if ev["op"] == "run":
+            d = {"entry": "stft", "style": "partial", "chain": procs[ev["proc"]], "call": ev["call"],
+                 "func": funcs[ev["proc"]], "sig": ev["sig"],
+                 "objs": dict((t, o) for t, o in c["objs"].items() if o["type"] in ("wnd", "fn", "ola")),
+                 "num": c["num"], "kind": "phist"}
+            d["regime"] = _regime_stft(d)
+            subs.append(d)
+    return subs
+
+
+def _ph_describe(c):
+    out, np_, nq = [], 0, 0
+    for ev in c["events"]:
+        op = ev["op"]
+        if op == "new":
+            out.append("p%d = stft(%s)" % (np_, _fmt_kw(ev["kw"])))
+            np_ += 1
+        elif op == "derive":
+            out.append("p%d = p%d(%s)" % (np_, ev["parent"], _fmt_kw(ev["kw"])))
+            np_ += 1
+        elif op == "build":
+            out.append("f%d = p%d(%s%s)" % (nq, ev["parent"], ev["func"], (", " + _fmt_kw(ev["kw"])) if ev["kw"] else ""))
+            nq += 1
+        elif op == "direct":
+            out.append("f%d = stft(%s, %s)" % (nq, ev["func"], _fmt_kw(ev["kw"])))
+            nq += 1
+        else:
+            out.append("f%d(sig[%d]%s)" % (ev["proc"], len(ev["sig"]), (", " + _fmt_kw(ev["call"])) if ev["call"] else ""))
+    return "; ".join(out)
+
+
+def _mk_phist(rng, quick=True):
+    base = _mk_stft(rng, rng.choice(["plain", "plain", "identity", "identity", "ola_none", "bad"]))
+    num = base["num"]
+    objs = dict((t, dict(o)) for t, o in base["objs"].items())
+    for t, o in objs.items():         # windows that can be handed over more than once
+        if o["type"] != "wnd":
+            continue
+        w = o["wnd"]
+        if w.get("kind") == "obj" and w["wk"] not in WK_REUSABLE:
+            wk = rng.choice(["list", "tuple", "deque", "user_iter_only"])
+            o["wnd"] = dict(w, wk=wk, call=None)
+            o["wkind"] = "obj:" + wk
+        elif w.get("kind") == "seq":
+            o["wkind"] = rng.choice(["list", "tuple"])
+        elif w.get("kind") == "callable":
+            o["wkind"] = "callable"
+    merged = {}
+    for lv in base["chain"] + [base["call"]]:
+        for k, v in lv:
+            merged[k] = v
+    items = [[k, v] for k, v in merged.items()]
+    size = merged.get("size")
+    isz = size if isinstance(size, int) else 4
+    wtags = sorted(t for t, o in objs.items() if o["type"] == "wnd")
+    ola_on = merged.get("ola", "absent") in ("@spy", "@list")
+    objs.setdefault("@g", {"type": "fn", "name": rng.choice(FN1), "arg": _rand_val(rng, "frac" if num == "float" else num)})
+    objs["@h"] = {"type": "fn", "name": "id" if base["kind"] == "identity" else rng.choice(FN1),
+                  "arg": _rand_val(rng, "frac" if num == "float" else num)}      # a second user function
+    if wtags and rng.random() < 0.5:
+        objs["@w2"] = {"type": "wnd", "wkind": "list", "wnd": {"kind": "seq", "w": _rand_wnd(rng, isz, num)}}
+        wtags.append("@w2")
+
+    def variation():
+        """keywords a derivation adds: the ones a sibling must not inherit"""
+        kw = []
+        for _ in range(rng.choice([0, 1, 1, 1, 2, 2, 3])):
+            r = rng.random()
+            if r < 0.30:
+                kw.append(["hop", rng.randint(1, isz)])
+            elif r < 0.45 and ola_on:
+                kw.append(["ola_normalize", rng.random() < 0.5])
+            elif r < 0.60 and wtags:
+                kw.append(["wnd", rng.choice(wtags + [None])])
+            elif r < 0.72 and wtags and ola_on:
+                kw.append(["ola_wnd", rng.choice([t for t in wtags if objs[t]["wnd"].get("kind") != "scalar"] + [None])])
+            elif r < 0.80:
+                kw.append([rng.choice(["before", "after"]), rng.choice([None, "@g"])])
+            elif r < 0.86 and ola_on:
+                kw.append(["ola_hop", rng.randint(1, isz)])
+            elif r < 0.90:
+                kw.append(["size", isz + rng.choice([0, 1])])
+            elif r < 0.93:
+                kw.append([rng.choice(["foo", "ola_latency", "olawnd"]), 1])
+            elif items:
+                kw.append(list(rng.choice(items)))
+        seen = {}
+        for k, v in kw:
+            seen[k] = v
+        return [[k, v] for k, v in seen.items()]
+
+    # the root partial gets most of the base keywords, the rest is given along the way
+    root = [kv for kv in items if rng.random() < 0.75 or kv[0] in ("size", "ola", "transform", "inverse_transform", "before", "after")]
+    rest = [kv for kv in items if kv not in root]
+    events = [{"op": "new", "kw": root}]
+    nparts, nprocs = 1, 0
+    n = rng.choice([2, 3, 3, 4, 4, 5, 6] if quick else [2, 3, 4, 5, 6, 7, 8, 9])
+    pending = []
+    for step in range(n):
+        r = rng.random()
+        # prefer parents that were used already: the same partial used several times is the point
+        used = [ev["parent"] for ev in events if ev["op"] in ("derive", "build")]
+        parent = rng.choice(used) if used and rng.random() < 0.6 else rng.randrange(nparts)
+        kw = variation() + [kv for kv in rest if rng.random() < 0.5]
+        seen = {}
+        for k, v in kw:
+            seen[k] = v
+        kw = [[k, v] for k, v in seen.items()]
+        if r < 0.30:
+            events.append({"op": "derive", "parent": parent, "kw": kw})
+            nparts += 1
+        elif r < 0.90 or nprocs == 0 and step == n - 1:
+            if rng.random() < 0.3:
+                kw = []          # bare `@p` / `p(func)`: the processor that must see the partial as it was given
+            events.append({"op": "build", "parent": parent, "kw": kw, "func": rng.choice(["@f", "@f", "@h"]),
+                           "deco": not kw and rng.random() < 0.5})
+            pending.append(nprocs)
+            nprocs += 1
+        elif r < 0.95:
+            events.append({"op": "new", "kw": [kv for kv in items if rng.random() < 0.7] + variation()[:1]})
+            nparts += 1
+        else:
+            events.append({"op": "direct", "kw": items, "func": "@f"})
+            pending.append(nprocs)
+            nprocs += 1
+        # runs: at once, or after later derivations
+        while pending and rng.random() < 0.5:
+            j = pending.pop(rng.randrange(len(pending)))
+            events.append(_ph_run(rng, j, isz, merged, num, rest))
+    while pending:
+        j = pending.pop(rng.randrange(len(pending)))
+        events.append(_ph_run(rng, j, isz, merged, num, rest))
+    used_tags = {"@f", "@h"} | {v for ev in events for key in ("kw", "call") for _, v in ev.get(key, []) if isinstance(v, str)}
+    return {"entry": "phist", "num": num, "objs": dict((t, o) for t, o in objs.items() if t in used_tags),
+            "events": events}
+
+
+def _ph_run(rng, j, isz, merged, num, rest):
+    eff_hop = merged.get("hop") if isinstance(merged.get("hop"), int) else isz
+    n = rng.choice([0, 1, isz, isz + 1, rng.randint(0, 12), isz + 2 * eff_hop])
+    call = [kv for kv in rest if rng.random() < 0.3]
+    if rng.random() < 0.15:
+        call.append(["hop", rng.randint(1, isz)])
+    seen = {}
+    for k, v in call:
+        seen[k] = v
+    return {"op": "run", "proc": j, "sig": [_rand_val(rng, num) for _ in range(n)], "call": [[k, v] for k, v in seen.items()]}
+
+
+def _impl_phist(c):
+    _zygote_start()
+    _ISO["dirty"] = True
+    from audiolazy import stft
+    env = _StftEnv(c["objs"], c["num"])
+    parts, procs, runs = [], [], []
+    _, paths, _ = _ph_paths(c)
+    try:
+        for ev in c["events"]:
+            op = ev["op"]
+            if op == "new":
+                parts.append(stft(**env.kw(ev["kw"])))
+            elif op == "derive":
+                parts.append(parts[ev["parent"]](**env.kw(ev["kw"])))
+            elif op == "build":
+                f = env.pyobj[ev["func"]]
+                if ev.get("deco") and not ev["kw"]:
+                    deco = parts[ev["parent"]]
+                    procs.append(deco(f))                 # what `@p` does
+                else:
+                    procs.append(parts[ev["parent"]](f, **env.kw(ev["kw"])))
+            elif op == "direct":
+                procs.append(stft(env.pyobj[ev["func"]], **env.kw(ev["kw"])))
+            else:
+                j = ev["proc"]
+                merged = {}
+                for lv in paths[j] + [ev["call"]]:
+                    for k, v in lv:
+                        merged[k] = v
+                runs.append(_run_proc(env, procs[j], [_py(x, env.num) for x in ev["sig"]], env.kw(ev["call"]), merged))
+    except Exception as e:
+        return {"err": "history event raised %s: %s" % (err_kind(e), str(e)[:80]), "runs": runs}
+    return {"runs": runs}
+
+
+def _run_proc(env, proc, sig, call_kw, merged):
+    """one call of a processor, observed like `_stft_exec` does"""
+    rec = env.rec
+    rec["trace"], rec["ola_kwargs"] = [], None
+    obs = {"phase": "call", "err": None, "out": None, "blocks": None}
+    try:
+        res = proc(sig, **call_kw)
+        obs["phase"] = "iter"
+        items = []
+        if merged.get("ola", "x") is None:
+            obs["blocks"] = items
+            for b in res:
+                items.append([enc(x) for x in b])
+        else:
+            obs["out"] = items
+            for x in res:
+                items.append(enc(x))
+    except Exception as e:
+        where, eo = _stft_plan_err(e)
+        obs["err"] = dict(eo, where=where)
+    obs["trace"] = rec["trace"]
+    obs["ola_kwargs"] = rec["ola_kwargs"]
+    return obs
+
+
+def _compare_phist(c, io, drv):
+    subs = _ph_subcases(c)
+    if "runs" not in io or isinstance(io.get("err"), str) or len(io["runs"]) != len(subs) or len(drv.get("runs", [])) != len(subs):
+        return [("model", "impl observation failed: %r" % (io.get("err", io),)), ("spec", "impl observation failed")]
+    out, first = [], True
+    text = _ph_describe(c)
+    for i, (sub, o, d) in enumerate(zip(subs, io["runs"], drv["runs"])):
+        for kind, detail in _compare_stft(sub, o, d):
+            out.append((kind, ("history %s: " % text if first else "") +
+                        "run #%d does not use the options of its own derivation path %s (%s)"
+                        % (i + 1, " | ".join(_fmt_kw(l) for l in sub["chain"]), detail[:260])))
+            first = False
+    return out
+
+
+def _classify_phist(c, io, drv):
+    if isinstance(io.get("err"), str):
+        return "phist:impl-observation-failed"
+    subs = _ph_subcases(c)
+    for sub, o, d in zip(subs, io.get("runs", []), drv.get("runs", [])):
+        if _compare_stft(sub, o, d):
+            return "phist:" + classify(sub, o, d)
+    return "phist:none"
+
+
+def _tally_phist(eng, c, io):
+    evs = c["events"]
+    eng.count("phist_events", len(evs))
+    eng.count("phist_max_uses_of_one_partial", max(_ph_uses(c) or [0]))
+    parts, procs, _ = _ph_paths(c)
+    eng.count("phist_deepest_path", max(len(p) for p in procs) if procs else 0)
+    eng.count("phist_processors", len(procs))
+    # the situation of the theorem: an earlier derivation from the same partial gave a keyword that a later one omits
+    seen, hit = {}, False
+    for ev in evs:
+        if ev["op"] in ("derive", "build"):
+            ks = set(k for k, _ in ev["kw"])
+            if seen.get(ev["parent"], set()) - ks:
+                hit = True
+            seen.setdefault(ev["parent"], set()).update(ks)
+    eng.count("phist_sibling_keyword_omitted_later", "yes" if hit else "no")
+    eng.count("phist_bare_decorator", sum(1 for ev in evs if ev["op"] == "build" and not ev["kw"]))
+    # runs that happen after a LATER derivation from an ancestor of their processor
+    eng.count("phist_runs_after_later_events", sum(1 for i, ev in enumerate(evs) if ev["op"] == "run" and
+              any(e2["op"] in ("derive", "build") for e2 in evs[[k for k, e3 in enumerate(evs) if e3["op"] in ("build", "direct")][ev["proc"]] + 1:i])))
+    for o in io.get("runs", []):
+        e = o.get("err")
+        eng.count("phist_run_error", "none" if e is None else e["tag"].split(":")[0])
+
+
+def _ph_drop(c, idx):
+    """the history without event #idx (and without what depended on it), names re-numbered"""
+    evs = c["events"]
+    pmap, qmap, out = {}, {}, []
+    np_, nq = 0, 0
+    cp, cq = 0, 0
+    for i, ev in enumerate(evs):
+        op = ev["op"]
+        keep = i != idx
+        if op in ("derive", "build") and ev["parent"] not in pmap:
+            keep = False
+        if op == "run" and ev["proc"] not in qmap:
+            keep = False
+        if op in ("new", "derive"):
+            if keep:
+                pmap[cp] = np_
+                np_ += 1
+            cp += 1
+        elif op in ("build", "direct"):
+            if keep:
+                qmap[cq] = nq
+                nq += 1
+            cq += 1
+        if keep:
+            ev = dict(ev)
+            if "parent" in ev:
+                ev["parent"] = pmap[ev["parent"]]
+            if "proc" in ev:
+                ev["proc"] = qmap[ev["proc"]]
+            out.append(ev)
+    return dict(c, events=out)
+
+
+def _shrink_phist(c):
+    evs = c["events"]
+    for i in range(len(evs) - 1, -1, -1):
+        d = _ph_drop(c, i)
+        if any(ev["op"] == "run" for ev in d["events"]):
+            yield d
+    for i, ev in enumerate(evs):
+        for key in ("kw", "call"):
+            for ki in range(len(ev.get(key, []))):
+                ne = dict(ev)
+                ne[key] = ev[key][:ki] + ev[key][ki + 1:]
+                yield dict(c, events=evs[:i] + [ne] + evs[i + 1:])
+        if ev["op"] == "run" and ev["sig"]:
+            yield dict(c, events=evs[:i] + [dict(ev, sig=ev["sig"][:-1])] + evs[i + 1:])
+            if any(x not in (0, 1) for x in ev["sig"]):
+                yield dict(c, events=evs[:i] + [dict(ev, sig=[1] * len(ev["sig"]))] + evs[i + 1:])
+    for tag, o in c["objs"].items():
+        if o["type"] == "fn" and o["name"] != "id":
+            yield dict(c, objs=dict(c["objs"], **{tag: dict(o, name="id")}))
